@@ -195,6 +195,7 @@ def check(ctx):
     ctx.rule("R6", "the purge keeps a task only on the evidence of a poll() that says the process is still running", floor=1)
     ctx.rule("R5", "inside one function every access to the job structures happens under one view of the tables", floor=12)
     ctx.rule("R7", "resume_job reports success only after it made the selected job the current one (front of the order): bg acts on the current job afterwards", floor=2)
+    ctx.rule("R8", "every job command looks at live jobs only: jobs, fg / bg (resume_job) and disown purge finished jobs before they read the table - a command that selects 'the current job' from an unpurged order acts on a job that has already finished (`disown` after the most recent job exited reports 'Removed job N (running)' and leaves the live current job alone)", floor=3)
     ctx.rule("R4", "jobs/bg/disown run against the main thread's table; use_main_jobs restores the thread-local view on every exit; fg is unthreadable", floor=5)
 
     mod = ctx.repo.module(JB)
@@ -436,6 +437,7 @@ def check(ctx):
         _use_main_jobs_class(ctx, mod)
     else:
         _use_main_jobs_generator(ctx, mod)
+    _commands_purge_first(ctx, mod)
 
 
     # ---- R5 one view per function
@@ -679,6 +681,18 @@ def _use_main_jobs_class(ctx, mod):
             fresh = bool(rets) and all(isinstance(r.value, ast.Call) and unparse(r.value.func) in ("use_main_jobs", f"type({param_name(rc, 0, skip_self=False)})", f"{param_name(rc, 0, skip_self=False)}.__class__") for r in rets)
         ok = not shared or fresh
         ctx.ob("R4", st, "the view captured at entry is kept per activation: the class saves it on the instance, so no instance may be shared between activations (a decorator instance is created once and serves every call and thread; overlapping activations would restore each other's view)", ok, key="use_main_jobs|saved-view-shared-between-activations", where=loc(cls), detail=f"one instance decorates {sorted(set(shared))}" if not ok else None)
+
+
+def _commands_purge_first(ctx, mod):
+    for q in ("jobs", "resume_job", "disown_fn"):
+        fn = flat(ctx, mod.func(q), 1, skip=("_clear_dead_jobs", "get_tasks", "get_jobs", "get_task"))
+        cfg = CFG(fn)
+        purge = [n for n in cfg.nodes if n.kind == "stmt" and any(call_name(c) == "_clear_dead_jobs" for c in calls_in(n.ast))]
+        reads = [n for n in cfg.nodes if n.kind in ("stmt", "if", "for", "while") and any(call_name(c) in ("get_tasks", "get_jobs", "get_task") for c in (calls_in(n.ast) if n.kind == "stmt" else [x for x in ast.walk(n.ast.test if n.kind in ("if", "while") else n.ast.iter) if isinstance(x, ast.Call)]))]
+        if not reads:
+            raise AnalysisError(f"{JB}:{q}: no read of the job structures found")
+        ok = bool(purge) and all(cfg.dominated(r, lambda m: m in purge) for r in reads)
+        ctx.ob("R8", f"{JB}:{q}", "finished jobs are purged (_clear_dead_jobs) before the first read of the job structures", ok, key=f"{q}|reads-unpurged-table", where=loc(reads[0].ast))
 
 META = {
     "technique": "static analysis: who-may-write + effect summaries of every mutator of the two job structures, CFG pairing (must-pass-through/dominance) and reachability of error returns after mutation",
